@@ -16,7 +16,7 @@
 (***************************************************************************)
 EXTENDS Naturals, Sequences, FiniteSets, TLC, Json
 
-CONSTANTS MaxInserts, Vals, MaxPages, PageLens, Emit, Mode   \* Mode: "filters" | "paging"
+CONSTANTS MaxInserts, Vals, MaxPages, PageLens, Emit, Mode   \* Mode: "filters" | "paging" | "bulk"
 
 Groups == {"plain", "nand", "nor"}
 \* kind -> wire key and value type
@@ -46,7 +46,21 @@ vars == <<filters, inserts, pages, served, seeds, collected, finished>>
 
 Empty == [g \in Groups |-> [k \in Kinds |-> 0]]
 
-Init == /\ filters = Empty /\ inserts = <<>> /\ served = 0 /\ seeds = <<>> /\ collected = <<>> /\ finished = FALSE
+\* "bulk": large groups (the exhaustive insertion sequences stay short): the first n kinds, in a fixed order, all inserted
+\* into one group - and optionally the same into a second group - so that group sizes reach two digits
+KindSeq == <<"IsSecured", "RunsMap", "CanHavePassword", "CanBeEmpty", "IsEmpty", "CanBeFull", "RunsAppID", "NotAppID", "HasTags",
+             "MatchName", "MatchVersion", "RestrictUniqueIP", "OnAddress", "Whitelisted", "SpectatorProxy", "IsDedicated",
+             "RunsLinux", "HasGameDir">>
+BulkSizes == {9, 10, 11, 18}
+BulkSeq(g, n) == [i \in 1 .. n |-> [g |-> g, k |-> KindSeq[i], v |-> 1]]
+BulkCases == {BulkSeq(g, n) : g \in Groups, n \in BulkSizes}
+             \cup {BulkSeq(g1, n) \o BulkSeq(g2, m) : g1 \in {"nand"}, g2 \in {"nor"}, n \in {10, 18}, m \in {9, 12}}
+FiltersOf(ins) == [g \in Groups |-> [k \in Kinds |->
+                     IF \E i \in 1 .. Len(ins) : ins[i].g = g /\ ins[i].k = k THEN 1 ELSE 0]]
+
+Init == /\ served = 0 /\ seeds = <<>> /\ collected = <<>> /\ finished = FALSE
+        /\ IF Mode = "bulk" THEN inserts \in BulkCases /\ filters = FiltersOf(inserts)
+                            ELSE filters = Empty /\ inserts = <<>>
         /\ pages \in (IF Mode = "paging"
                       THEN UNION {[1 .. n -> PageLens] : n \in 1 .. MaxPages}
                       ELSE {<<>>})
@@ -58,7 +72,7 @@ Insert(g, k, v) ==
   /\ inserts' = Append(inserts, [g |-> g, k |-> k, v |-> v])
   /\ UNCHANGED <<pages, served, seeds, collected, finished>>
 
-Build == /\ Mode = "filters" /\ ~finished /\ finished' = TRUE
+Build == /\ Mode \in {"filters", "bulk"} /\ ~finished /\ finished' = TRUE
          /\ UNCHANGED <<filters, inserts, pages, served, seeds, collected>>
 
 \* what the request must denote: per group the set of (kind, value) pairs
@@ -92,7 +106,7 @@ AllAddresses == finished /\ Mode = "paging" => collected = pages
 
 Export ==
   (finished /\ Emit) =>
-    PrintT(<<"BEHAVIOUR", ToJson(IF Mode = "filters"
+    PrintT(<<"BEHAVIOUR", ToJson(IF Mode \in {"filters", "bulk"}
                                   THEN [mode |-> "filters", inserts |-> inserts, regions |-> RegionTable,
                                         denotes |-> [g \in Groups |-> {[k |-> p[1], key |-> KindTable[p[1]].key, ty |-> KindTable[p[1]].ty, v |-> p[2]] : p \in Denotes[g]}]]
                                   ELSE [mode |-> "paging", pages |-> pages, seeds |-> seeds])>>)
